@@ -219,6 +219,22 @@ def build_corpus(rng, tier, scale=1):
             add(asm.assemble([("PROTO", 2), ("GLOBAL", ("_codecs", fn)), ("BINUNICODE", "abc"),
                               ("BINUNICODE", codec), "TUPLE2", "REDUCE", ("BINPUT", 0), "STOP"]),
                 "assembled", f"_codecs.{fn}/{codec}/p2", named=["_codecs"])
+    # names that are str.format / %-templates: a report that renders the pickle's own text as a template walks
+    # attribute and index paths of live objects as the input directs (seeded C01 r6); the paths below end on the
+    # pre-imported tripwire module, on a not-yet-imported stdlib module and on a function's __globals__
+    templates = ["{0.__init__.__globals__[sys].modules[verif_canary_pre].go}",
+                 "{0.__class__.__init__.__globals__[sys].modules[verif_canary_pre].go}",
+                 "{0.trigger.__class__.__mro__}", "{0.severity.__class__.__init__.__globals__}",
+                 "{0}", "{x}", "%(x)s", "{0.__init__.__globals__[sys].modules[concurrent.futures].ProcessPoolExecutor}"]
+    for t in templates:
+        for m, n in (("os", t), (t, "system"), ("verif_canary_mod", t), ("builtins", "eval")):
+            prog = [("GLOBAL", (m, n))] + (["MARK", ("UNICODE", t), "TUPLE", "REDUCE"] if n == "eval" else []) + ["STOP"]
+            try:
+                add(asm.assemble(prog), "assembled", f"template/{m[:12]}.{n[:12]}", named=[m.split(".")[0]] if "{" not in m and "%" not in m else [])
+            except Exception:
+                pass
+        add(asm.assemble([("PROTO", 4), ("SHORT_BINUNICODE", "os"), ("SHORT_BINUNICODE", t), "STACK_GLOBAL",
+                          "EMPTY_TUPLE", "REDUCE", "STOP"]), "assembled", "template/stack_global", named=["os"])
     base = list(cases)
     # stacked files
     for _ in range(20 * scale):
